@@ -11,6 +11,27 @@ GOENV = dict(os.environ, GOFLAGS="-mod=mod", GOPROXY="off", GOSUMDB="off", GOTOO
 NCPU = os.cpu_count() or 4
 
 
+def split_big(f, limit=40 << 20):
+    """Split an ndjson event file into parts of at most ~limit bytes (line boundaries); returns the list of files to validate."""
+    if os.path.getsize(f) <= limit:
+        return [f]
+    parts, out, size = [], None, 0
+    with open(f) as src:
+        for line in src:
+            if out is None or size >= limit:
+                if out:
+                    out.close()
+                pf = "%s.part%d" % (f, len(parts))
+                out = open(pf, "w")
+                parts.append(pf)
+                size = 0
+            out.write(line)
+            size += len(line)
+    if out:
+        out.close()
+    return parts
+
+
 class Infra(Exception):
     """Infrastructure failure: exit 2."""
 
@@ -220,34 +241,47 @@ class Run:
         return bad, nev
 
     def validate_events(self, files, timeout=900, module="Trace_Events", cfg_body=None):
-        """Run one single-worker TLC per event file (in parallel); return [(event, verdicts)] for events that are not ok."""
-        procs = []
-        for i, f in enumerate(files):
-            if not os.path.exists(f) or os.path.getsize(f) == 0:
-                continue
-            cfg = os.path.join(self.scratch, "%s_%d_%s.cfg" % (module, i, os.path.basename(f).replace(".", "_")))
-            with open(cfg, "w") as c:
-                c.write(('CONSTANT TraceFile = "%s"\n' % f) + (cfg_body or 'INIT Init\nNEXT Next\nINVARIANT Done\nCHECK_DEADLOCK FALSE\nPOSTCONDITION AllConsumed\n'))
-            cmd = self.tlc_cmd(module, cfg, workers=1, heap="2g")
-            procs.append((f, subprocess.Popen(cmd, cwd=self.scratch, stdout=subprocess.PIPE, stderr=subprocess.STDOUT, text=True)))
+        """Run single-worker TLC validators over the event files (in parallel); return [(event, verdicts)] for events that are not ok."""
+        # a validator deserializes its whole file (Json!ndJsonDeserialize): files above ~40 MB are split so that the 2 GB heap is never
+        # under pressure (a 250 MB event file made TLC crawl), and at most NCPU - 2 validators run at a time
+        parts = []
+        for f in files:
+            if os.path.exists(f) and os.path.getsize(f) > 0:
+                # only the stateless composite events may be cut anywhere; a recorded history (Trace_Api) must stay in one piece
+                parts += split_big(f) if module == "Trace_Events" else [f]
+        width = max(2, min(14, NCPU - 2))
         bad = []
-        for f, p in procs:
-            try:
-                out, _ = p.communicate(timeout=timeout)
-            except subprocess.TimeoutExpired:
-                p.kill()
-                raise Infra("trace validation timeout on %s" % f)
-            m = re.search(r'<<"VERDICTS", (\d+), (".*")>>', out)
-            if p.returncode != 0 or not m:
-                raise Infra("trace validation failed on %s (exit %s):\n%s" % (f, p.returncode, tail_errors(out)))
-            st = tlc_stats(out)
-            self.states += st["distinct"]
-            self.transitions += st["generated"]
-            verdicts = json.loads(json.loads(m.group(2)))
-            if verdicts:
-                lines = open(f).read().splitlines()
-                for v in verdicts:
-                    bad.append((json.loads(lines[v["i"] - 1]), v["v"]))
+        t_end = time.time() + timeout
+        for w0 in range(0, len(parts), width):
+            procs = []
+            for i, f in enumerate(parts[w0:w0 + width]):
+                cfg = os.path.join(self.scratch, "%s_%d_%s.cfg" % (module, w0 + i, os.path.basename(f).replace(".", "_")))
+                with open(cfg, "w") as c:
+                    c.write(('CONSTANT TraceFile = "%s"\n' % f) + (cfg_body or 'INIT Init\nNEXT Next\nINVARIANT Done\nCHECK_DEADLOCK FALSE\nPOSTCONDITION AllConsumed\n'))
+                cmd = self.tlc_cmd(module, cfg, workers=1, heap="2g")
+                procs.append((f, subprocess.Popen(cmd, cwd=self.scratch, stdout=subprocess.PIPE, stderr=subprocess.STDOUT, text=True)))
+            for f, p in procs:
+                try:
+                    out, _ = p.communicate(timeout=max(1, t_end - time.time()))
+                except subprocess.TimeoutExpired:
+                    for _, p2 in procs:
+                        p2.kill()
+                    raise Infra("trace validation timeout on %s" % f)
+                m = re.search(r'<<"VERDICTS", (\d+), (".*")>>', out)
+                if p.returncode != 0 or not m:
+                    for _, p2 in procs:
+                        p2.kill()
+                    raise Infra("trace validation failed on %s (exit %s):\n%s" % (f, p.returncode, tail_errors(out)))
+                st = tlc_stats(out)
+                self.states += st["distinct"]
+                self.transitions += st["generated"]
+                verdicts = json.loads(json.loads(m.group(2)))
+                if verdicts:
+                    lines = open(f).read().splitlines()
+                    for v in verdicts:
+                        ev = json.loads(lines[v["i"] - 1])
+                        ev["_src"] = [f, v["i"]]       # where the event came from (file, 1-based line): lets a check look at the history before it
+                        bad.append((ev, v["v"]))
         return bad
 
     def record_and_validate(self, n, seed_salt=0, maxlen=90, parse_only=50, chunks=None, pinned=None, host_alphabet=None, host_len=3, parser=None):
